@@ -1169,7 +1169,8 @@ def execute_unit(inp):
         finally:
             shutil.rmtree(top, ignore_errors=True)
         if op == "write_tsv":
-            rec["lines"] = [ln.split("\t") for ln in text.split("\n")[:-1]] if text.endswith("\n") else [["<no trailing newline>"]]
+            rec["lines"] = ([ln.split("\t") for ln in text.split("\n")[:-1]] if text.endswith("\n") or text == ""
+                            else [["<no trailing newline>"]])
         else:
             rec["content"] = text
     elif op == "ensure_path":
